@@ -503,8 +503,12 @@ fn check_names(t: &mut Tally, scratch: &Path, id: usize, names: &[String]) {
     let mut want: Vec<(String, String, String, Result<String, String>)> = names
         .iter()
         .map(|n| {
-            let i = n.rfind('-').unwrap();
-            (n.clone(), n[..i].to_string(), n[i + 1..].to_string(), Ok(content(n, "+DESC")))
+            // (a name without '-': the whole name is the base and the version is empty - the
+            // convention C18 states for the library's own PKGNAME split, DESIGN 11.15)
+            match n.rfind('-') {
+                Some(i) => (n.clone(), n[..i].to_string(), n[i + 1..].to_string(), Ok(content(n, "+DESC"))),
+                None => (n.clone(), n.clone(), String::new(), Ok(content(n, "+DESC"))),
+            }
         })
         .collect();
     want.sort();
@@ -986,7 +990,10 @@ fn main() {
             .collect();
         sets.push(vec![".hidden-tool-2.0nb1".into(), "..odd-3".into(), "...-1".into(), "-lead-1".into(), "trail-1-".into(), "--".into(), "-".into(), "a--1".into(), "lost+found-1".into(), "CVS-1".into(), ".git-1".into(), "#tmp#-1".into(), "core-1".into(), "pkgdb.byfile.db-1".into(), "x-1.tmp".into(), "x-1.lock".into(), "x-1~".into()]);
         sets.push((0..40).map(|i| format!("{}-{}", "n".repeat(1 + i * 6), "9".repeat(1 + (i % 5) * 50))).filter(|n| n.len() <= 250).collect());
-        run.bound(format!("name sweep: {} databases, {} characters in six positions of a complete directory's name, plus dot-leading / dash-only / editor-dropping-like names and names up to 250 bytes", sets.len(), chars.len()));
+        // names without any '-': packages all the same, whole name as base, empty version
+        sets.push(vec!["mktool".into(), "x".into(), ".hidden".into(), "pkg1.0".into(), "pkg_1.0".into(), "1.0".into(), "nb1".into(), "1.0nb2".into(), "pkg.1".into(), "PKG".into(), "p k g".into(), "pkg+1".into(), "pkg>=1".into(), "pkg{1,2}".into(), "pkg\u{2010}1".into(), "pkg\u{2212}1".into(), "pkg\u{ff0d}1".into(), "n".repeat(250)]);
+        sets.push(chars.iter().filter(|c| **c != '-').map(|c| format!("pkg{}1", c)).collect());
+        run.bound(format!("name sweep: {} databases, {} characters in six positions of a complete directory's name, plus dot-leading / dash-only / editor-dropping-like names, names up to 250 bytes and names without any '-' (every character between 'pkg' and '1', dash look-alikes)", sets.len(), chars.len()));
         par_items(&run, "C20 names", &sets, |i, names, t| {
             t.states += 1;
             t.transitions += names.len() as u64;
